@@ -6,13 +6,28 @@ ROOT = os.path.dirname(os.path.dirname(os.path.abspath(__file__)))
 E1 = "stateless model checking of the real Service: deviation-bounded exhaustive DFS over named schedules under an owned cooperative scheduler, controllable messaging client and owned eviction timers; reference client / atomic service model as oracles"
 TB = "Trusted: closure-granularity reduction argument (DESIGN 2.1), the harness' reference client and service model, Go map iteration order observed not enumerated, bounds as reported in evidence (deviation bound, scenario alphabets)."
 
+E2 = "exhaustive enumeration of a finite input family through the real entry point against an independent reference function (bounded exhaustive exploration, worker processes with crash attribution)"
 claimed = {
- # id: (level category, text, technique, design_ref)
- "C01": ("model_checking", "Every schedule of every conv/* scenario within the deviation bound ends with all client copies and cached copies equal to the service state; other families judged at a lower bound.", E1, "6 C01"),
- "C02": ("model_checking", "Every frame of every explored execution is applicable for a reachability-retaining reference client (no dangling reference, no stray event, indexes in range).", E1, "6 C02"),
+ "C01": ("model_checking", "Every schedule of the conv/* (and all other) scenarios within the deviation bound ends with all client copies and cached copies equal to the service state.", E1, "6 C01"),
+ "C02": ("model_checking", "Every frame of every explored execution is applicable for a reachability-retaining reference client (no dangling reference, no stray event, indexes in range); gc/* graph scenarios.", E1, "6 C02"),
+ "C03": ("model_checking", "Numbered event streams (custom + state events) are delivered contiguously from the hand-over snapshot to the last emitted event on every explored schedule.", E1, "6 C03"),
+ "C04": ("model_checking", "Every data-carrying response / HTTP 200 is justified by a still-valid get grant for that connection and resource; refusals give the access error.", E1, "6 C04"),
+ "C05": ("model_checking", "Every call.* request at the messaging boundary is justified by a still-valid granting access answer; token currency of every request; exhaustive call-list matcher enumeration.", E1 + " + " + E2, "6 C05"),
+ "C06": ("model_checking", "After every trigger a re-check with the current token follows for each direct subscription; refusals revoke; nothing emitted after the trigger is delivered before the verdict.", E1, "6 C06"),
  "C07": ("model_checking", "At full quiescence of every explored execution each request id has exactly one well-formed response.", E1, "6 C07"),
  "C08": ("model_checking", "Gateway direct counts equal the client-side counter model at every quiet state; unsubscribe verdicts predicted; no residue after failed requests and gets.", E1, "6 C08"),
  "C09": ("model_checking", "Use-count / subscriber / eviction-queue / MQ-subscription invariants on every settled state, get-after-subscribe at the MQ boundary, emptiness and gauges at the end.", E1, "6 C09"),
+ "C10": ("model_checking", "cid/token pairs of every service request, no connection id in any client frame, token state per connection, on every explored schedule of multi-connection scenarios.", E1, "6 C10"),
+ "C11": ("model_checking", "A disconnect injected at every choice point of every base history: conn subscription released, no later request or frame for the connection, cache use counts consistent.", E1 + " (fault at every step = one deviation)", "6 C11"),
+ "C12": ("model_checking", "Exhaustive matcher and diff enumerations against reference functions; every old/new model pair and collection pair through the real reset path; matching set for all pattern lists of a catalogue; reset overlap scenarios under the schedule explorer.", E2 + " + " + E1, "6 C12"),
+ "C13": ("model_checking", "Query aliasing with gets in flight in every order, query event request sets, lock release, no event during the lock, convergence per alias rid.", E1, "6 C13"),
+ "C14": ("exploration", "Every method string / HTTP path of a finite alphabet family: hygienic subjects equal to the reference parser's expectation, invalid input rejected without traffic; service-supplied invalid rids never followed.", E2, "6 C14"),
+ "C15": ("exploration", "All single-node corruptions of every message kind at several history positions: no crash, no hang, all-or-nothing application, later messages still processed.", E2, "6 C15"),
+ "C16": ("exploration", "All rooted resource graphs up to 3 nodes x both encodings through Service.ServeHTTP against an independent renderer; HEAD == GET; POST cases.", E2, "6 C16"),
+ "C17": ("exploration", "Full product of error codes, meta statuses, meta header names and Origin/allow-list combinations for GET/POST/OPTIONS/WebSocket upgrade.", E2, "6 C17"),
+ "C18": ("model_checking", "Every maximal interleaving of replies, pre-responses, 503s, owned timeout pop/fire, events, Unsubscribe, disconnect and Close for 2-3 concurrent requests of the real adapter against a protocol-level fake server; subject length sweep.", "explicit enumeration of all action sequences of a finite adapter/server model, each replayed against the real nats adapter over loopback TCP (model traces validated against the implementation)", "6 C18"),
+ "C19": ("model_checking", "Outstanding governed requests never exceed N x throttles at the messaging boundary on every schedule / answer order; all governed requests eventually published; exhaustive Add/Done sequences on the exported Throttle.", E1 + " + " + E2, "6 C19"),
+ "C20": ("fault_enumeration", "Stop / messaging loss injected after every step of 6 base histories over real WebSocket connections: all clients closed, new requests refused, cause reported, restart works.", "fault-point enumeration over (history, step index, fault kind) on the free-running gateway with real sockets", "6 C20"),
 }
 todo = {}
 props = [json.loads(l) for l in open(os.path.join(ROOT, "properties.jsonl"))]
